@@ -32,7 +32,7 @@ ASSUMPTIONS = [
 PROBES = ["ops", "plain_ops", "show_ops", "save_ops", "show_and_save_ops", "bulk_save_ops", "bulk_save_all_invalid", "bulk_save_empty",
           "outcome_unchanged", "outcome_fixed", "outcome_failed", "preview_hsl", "preview_alpha", "preview_tuple", "preview_named",
           "plain_after_preview", "report_files_written", "tty_runs", "no_color_runs", "decoy_runs", "subprocess_phase",
-          "slot_ops", "invalid_pair_with_show", "chdir_ops", "report_after_chdir", "force_color_env_runs", "big_bulk_ops", "tmpdir_on_other_filesystem_runs", "report_blocked_ops", "save_with_report_blocked", "heavy_distinct_fix_ops", "odd_directory_names", "minimal_stdout_runs", "import_time_stdout_closed_runs", "iterator_container_ops", "non_utf8_locale_phase", "caller_source_raised_ops", "ops_from_worker_thread"]
+          "slot_ops", "invalid_pair_with_show", "chdir_ops", "report_after_chdir", "force_color_env_runs", "big_bulk_ops", "tmpdir_on_other_filesystem_runs", "report_blocked_ops", "save_with_report_blocked", "heavy_distinct_fix_ops", "odd_directory_names", "minimal_stdout_runs", "import_time_stdout_closed_runs", "iterator_container_ops", "non_utf8_locale_phase", "caller_source_raised_ops", "ops_from_worker_thread", "fed_back_result_ops"]
 
 QUICK = "cm_colors_quick_report.html"
 BULK = "cm_colors_bulk_report.html"
@@ -106,6 +106,20 @@ def generate(rseed, tier, idx):
             if g.random() < 0.12:
                 op["thread"] = True  # issued from a worker thread, not the thread that imported cm_colors
             ops.append(op)
+            if g.random() < 0.3:
+                # "feed the result back": a later pair whose text IS the colour the earlier call returned (to reach AAA, or to
+                # check it against another background), in whatever format it came back
+                t2, b2, large2, _tk2 = _pair(g, True)
+                fu = {"op": "make", "t": t, "t_from": len(ops) - 1, "b": g.choice((b, b, b2)), "large": large, "mode": g.choice((0, 1, 1, 2, None)),
+                      "vr": g.random() < 0.7, "tk": tk}
+                k2 = g.random()
+                if k2 < 0.3:
+                    fu["show"] = True
+                    fu["plain_first"] = g.random() < 0.5
+                elif k2 < 0.45:
+                    fu["save"] = True
+                    fu["plain_first"] = g.random() < 0.5
+                ops.append(fu)
         elif m < 0.82:
             kind = g.choice(("normal", "normal", "normal", "empty", "all-invalid", "big", "raising")) if g.random() > 0.02 else "big-fix"
             pairs = []
@@ -164,7 +178,7 @@ def generate(rseed, tier, idx):
 
 
 def _strip(op):
-    return {k: v for k, v in op.items() if k not in ("plain_first", "tk", "bkind")}
+    return {k: v for k, v in op.items() if k not in ("plain_first", "tk", "bkind", "t_from")}
 
 
 def execute(trace):
@@ -181,7 +195,15 @@ def execute(trace):
     ctx_model = apiops.Ctx()
     # ---- pristine oracles first (nothing of cm_colors has run in this process yet)
     oracles = []
-    for op in trace["ops"]:
+    trace = dict(trace, ops=copy.deepcopy(trace["ops"]))  # (fed-back texts are filled in below, on a private copy)
+    for i_op, op in enumerate(trace["ops"]):
+        if op.get("t_from") is not None:
+            k_src = op["t_from"]
+            src = oracles[k_src].get("plain", {}).get("ret") if 0 <= k_src < i_op and trace["ops"][k_src]["op"] == "make" else None
+            got = dec(src) if src is not None else None
+            if isinstance(got, tuple) and len(got) == 2 and got[0] is not None:
+                op["t"] = enc(got[0])  # the colour the earlier call returns (by the property: with or without preview)
+                bump("fed_back_result_ops")
         sop = _strip(op)
         if sop["op"] in ("chdir", "block_reports"):
             oracles.append({})
